@@ -9,10 +9,15 @@ def run(ctx):
     for _ in range(n_rand):
         k = ctx.rng.randint(6, 30)
         cases.append({"kind": "name", "n": [ctx.rng.choice("ABCDEFG")] + [ctx.rng.choice("#b") for _ in range(k)]})
+    # every letter with 6..9 sharps and with 6..9 flats (the result carries at most six accidentals whatever the input carries)
+    for L in "ABCDEFG":
+        for k in range(6, 10):
+            for a in "#b":
+                cases.append({"kind": "name", "n": [L] + [a] * k})
     ctx.exhaustive = True
     ctx.bounds = {"quick": "constructors: 17 x every name with <= 5 accidentals in every order; measure/consonance: all ordered pairs of names with <= 3 accidentals, each flag value and the default",
                   "thorough": "constructors on names with <= 8 accidentals; pairs over <= 5 accidentals"}[t]
-    ctx.rule = ("TLC-enumerated names/pairs (Gen_C02) plus %d seeded random names with 6..30 accidentals; distinct = "
+    ctx.rule = ("TLC-enumerated names/pairs (Gen_C02) plus %d seeded random names with 6..30 accidentals and every letter with 6..9 sharps / flats; distinct = "
                 "distinct (operation, arguments); non-trivial = some argument carries an accidental" % n_rand)
     ctx.nontrivial = lambda r: any(len(v) > 1 for v in r["in"].values() if isinstance(v, list))
     recs = ctx.execute("c02", cases, orders=2)
